@@ -955,6 +955,10 @@ impl<S: MetricSink> MetricSink for Counting<S> {
         if m.contains("refuseme") {
             return Err(io::Error::new(io::ErrorKind::InvalidData, "refused by the wrapper"));
         }
+        // ... or panic over it (only asked for behind a queuing sink: the panic stays on the queue's thread)
+        if m.contains("panicme") {
+            panic!("scripted-panic: the wrapper in front of the buffered sink");
+        }
         let r = self.inner.emit(m);
         if r.is_ok() {
             self.inner_ok.fetch_add(1, Ordering::SeqCst);
@@ -1373,7 +1377,9 @@ fn mode_delegate(j: &mut Judge) {
             } else if through_queue && r.chance(1, 8) {
                 // a metric the wrapper in front of the buffered sink refuses: the queue's thread sees an error, the
                 // buffered sink sees nothing - and has no reason to write
-                let key = format!("refuseme{}", k);
+                // (or panics over: the queue replaces its thread - and the buffered sink still has no reason to write)
+                let panics_over = r.chance(1, 2);
+                let key = format!("{}{}", if panics_over { "panicme" } else { "refuseme" }, k);
                 match panics::guard(|| client.gauge(&key, 1u64)) {
                     Ok(Ok(_)) => {
                         sent += 1;
@@ -1382,12 +1388,12 @@ fn mode_delegate(j: &mut Judge) {
                             return;
                         }
                         // (the worker may do something right after the failed call: give it a moment)
-                        std::thread::sleep(std::time::Duration::from_millis(2));
+                        std::thread::sleep(std::time::Duration::from_millis(if panics_over { 6 } else { 2 }));
                         let mut attempts = Vec::new();
                         while let Ok(b) = rx.try_recv() {
                             attempts.push(Attempt { bytes: Some(b), out: AOut::Ok });
                         }
-                        j.rep.obs("metrics_refused_by_a_wrapper_in_front_of_the_buffered_sink", 1);
+                        j.rep.obs(if panics_over { "metrics_a_wrapper_in_front_of_the_buffered_sink_panicked_over" } else { "metrics_refused_by_a_wrapper_in_front_of_the_buffered_sink" }, 1);
                         steps.push(Step { op: Op::Query, attempts, res: Res::OkUnit });
                     }
                     _ => {
